@@ -1,5 +1,6 @@
 import Gtree.Lemmas.EntryFacts
 import Gtree.Lemmas.HeapWalk
+import Gtree.Lemmas.HeapGrower
 import Gtree.Lemmas.SourceRefines
 import Gtree.Lemmas.Output
 import Gtree.Lemmas.PathLex
